@@ -2,9 +2,20 @@
  *
  *   ut_replay replay <behaviours.txt> <trace.ndjson>     event-by-event executions (TLC behaviours of UserTrigger.tla)
  *   ut_replay sweep  <runs.txt>       <trace.ndjson>     one "run" line per (N, root, delivery order)
+ *   ut_replay conc   <script.txt>     <trace.ndjson> <meta.ndjson>
+ *                    several controlled threads of ONE virtual rank call the module concurrently (vsched.h); schedules
+ *                    of UserTriggerImpl.tla are replayed and / or every interleaving at yield-point granularity is explored
  *
  * behaviours.txt: one behaviour per line:   "N;R 0;R 2;T 2;D 2 3;R 1;..."   (Ready r / Trigger r / Deliver src dst)
  * runs.txt:       one run per line:         "N root order seed"     order: 0 = FIFO, 1 = LIFO, 2 = random(seed)
+ * script.txt:     S <id> <N> <me> <root> <pre>     scenario: the threads run on virtual rank <me>; root == me: one of them
+ *                                                  triggers, else <root> triggers first and the notification for <me> is
+ *                                                  dispatched by a thread (op msg); <pre> = runtime actions accounted
+ *                                                  (addto_runtime_actions(+1)) before the threads start
+ *                 T <op> <op> ...                  one line per thread; op = trig | msg | add:<v> | tsk | chk
+ *                 R <digits>                       replay this schedule (thread ids) on the current scenario
+ *                 X <limit>                        explore every interleaving of the current scenario (vs_explore)
+ *                 (the yield points are the parsec_atomic_* operations of the module and every send_am)
  *
  * Every virtual rank r has its own parsec_context_t copy (my_rank = r, nb_nodes = N) and its own parsec_taskpool_t;
  * all taskpools share one taskpool_id.  parsec_ce.send_am is replaced by a recording stub; a recorded message is
@@ -24,8 +35,9 @@
 #include <stdio.h>
 #include <stdlib.h>
 #include <string.h>
+#include "vsched.h"
 
-typedef struct { int src, dst, cause; parsec_termdet_user_trigger_msg_t m; int size; int live; } vmsg_t;
+typedef struct { int src, dst, cause; parsec_termdet_user_trigger_msg_t m; int size; int live; int tid; } vmsg_t;
 
 static parsec_context_t *real_ctx;
 static int N;
@@ -44,9 +56,12 @@ static int eventlevel;
 static int stub_send_am(parsec_comm_engine_t *ce, parsec_ce_tag_t tag, int remote, void *addr, size_t size)
 {
     (void)ce;
+    vs_yield();                          /* a send goes to the communication engine: the broadcast is interruptible here
+                                          * (no-op for a thread that is not under the cooperative scheduler) */
     if( nmsgs == capmsgs ) { capmsgs = capmsgs ? 2 * capmsgs : 1024; msgs = realloc(msgs, capmsgs * sizeof(vmsg_t)); }
     vmsg_t *m = &msgs[nmsgs++];
     m->src = cur_rank; m->dst = remote; m->cause = cur_cause; m->live = 1;
+    m->tid = (NULL != vs_me) ? vs_me->tid + 1 : 0;
     m->size = (int)size;
     memset(&m->m, 0, sizeof(m->m));
     memcpy(&m->m, addr, size < sizeof(m->m) ? size : sizeof(m->m));
@@ -56,7 +71,12 @@ static int stub_send_am(parsec_comm_engine_t *ce, parsec_ce_tag_t tag, int remot
     return 1;
 }
 
-static void term_cb(parsec_taskpool_t *tp) { cbcount[tp->context->my_rank]++; }
+static int conc_mode = 0;
+static void term_cb(parsec_taskpool_t *tp)
+{
+    cbcount[tp->context->my_rank]++;
+    if( conc_mode ) fprintf(out, "{\"e\":\"cb\",\"r\":%d}\n", tp->context->my_rank);
+}
 
 /* ---- per-virtual-rank view of the process-wide delayed list ---------------------------------------------------- */
 static void dly_load(int r)
@@ -195,6 +215,158 @@ static int run_behaviour(char *line)
     return diverged;
 }
 
+/* ---- concurrent mode: controlled threads on one virtual rank ---------------------------------------------------- */
+enum { C_TRIG, C_MSG, C_ADD, C_TSK, C_CHK };
+#define C_MAXOPS 8
+typedef struct { int kind, v; } cop_t;
+static char c_id[64];
+static int c_n, c_me, c_root, c_pre, c_nthr, c_nops[VS_MAXT];
+static cop_t c_ops[VS_MAXT][C_MAXOPS];
+static int c_ret[VS_MAXT][C_MAXOPS], c_nret[VS_MAXT];
+static FILE *meta;
+static long c_nexec = 0;
+static const char *c_opname[] = { "trig", "msg", "add", "tsk", "chk" };
+
+static void conc_body(int tid, void *arg)
+{
+    parsec_taskpool_t *tp = &vtp[c_me];
+    const parsec_termdet_base_module_t *mod = tp->tdm.module;
+    (void)arg;
+    for( int i = 0; i < c_nops[tid]; i++ ) {
+        cop_t *o = &c_ops[tid][i];
+        int r = 0;
+        switch( o->kind ) {
+        case C_CHK:      /* the accounting helpers may only be used on a taskpool that is not TERMINATED */
+            r = (PARSEC_TERM_TP_TERMINATED != mod->taskpool_state(tp));
+            break;
+        case C_ADD:
+            r = mod->taskpool_addto_runtime_actions(tp, o->v);
+            break;
+        case C_TSK:
+            vs_yield();                                  /* operation boundary (the call has no yield point of its own) */
+            r = mod->taskpool_addto_nb_tasks(tp, -1);
+            if( PARSEC_UNDETERMINED_NB_TASKS == r ) r = -1;
+            break;
+        case C_TRIG:
+            fprintf(out, "{\"e\":\"trigger\",\"r\":%d}\n", c_me);
+            r = mod->taskpool_set_nb_tasks(tp, 0);
+            break;
+        case C_MSG: {
+            int k;
+            for( k = 0; k < nmsgs; k++ ) if( msgs[k].live && msgs[k].dst == c_me ) break;
+            if( k == nmsgs ) { fprintf(stderr, "ut_replay: no notification in flight for rank %d\n", c_me); exit(3); }
+            vmsg_t m = msgs[k];
+            msgs[k].live = 0;
+            fprintf(out, "{\"e\":\"deliver\",\"src\":%d,\"dst\":%d}\n", m.src, m.dst);
+            r = parsec_termdet_user_trigger_msg_dispatch(&parsec_ce, PARSEC_TERMDET_USER_TRIGGER_MSG_TAG, &m.m, m.size, m.src, NULL);
+            break; }
+        }
+        c_ret[tid][c_nret[tid]++] = r;
+        fprintf(out, "{\"e\":\"op\",\"t\":%d,\"op\":\"%s\",\"v\":%d,\"r\":%d}\n", tid + 1, c_opname[o->kind], o->v, r);
+        if( C_CHK == o->kind && 0 == r ) return;          /* TERMINATED: nothing to account any more */
+    }
+}
+
+static int conc_once(void *ctx, const unsigned char *sched, int slen, vs_run_t *r)
+{
+    const char *mode = (const char*)ctx;
+    int ndeliv = 0, guard, k, first_msg;
+    if( c_nexec++ ) fprintf(out, "{\"e\":\"Reset\"}\n");
+    setup(c_n);
+    fprintf(out, "{\"e\":\"cfg\",\"n\":%d}\n", c_n);
+    for( int q = 0; q < c_n; q++ ) { fprintf(out, "{\"e\":\"ready\",\"r\":%d}\n", q); do_ready(q); }
+    if( c_root != c_me ) {          /* somebody else triggers; relay until the notification for `me` is in flight */
+        fprintf(out, "{\"e\":\"trigger\",\"r\":%d}\n", c_root);
+        do_trigger(c_root);
+        for( guard = 0; guard < 4 * c_n + 16; guard++ ) {
+            for( k = 0; k < nmsgs; k++ ) if( msgs[k].live && msgs[k].dst == c_me ) break;
+            if( k < nmsgs || (k = first_live()) < 0 ) break;
+            fprintf(out, "{\"e\":\"deliver\",\"src\":%d,\"dst\":%d}\n", msgs[k].src, msgs[k].dst);
+            do_deliver(k, ++ndeliv);
+        }
+    }
+    for( int q = 0; q < c_pre; q++ ) {
+        int rr = vtp[c_me].tdm.module->taskpool_addto_runtime_actions(&vtp[c_me], 1);
+        fprintf(out, "{\"e\":\"op\",\"t\":0,\"op\":\"add\",\"v\":1,\"r\":%d}\n", rr);
+    }
+    memset(c_nret, 0, sizeof(c_nret));
+    first_msg = nmsgs;
+    parsec_taskpool_register(&vtp[c_me]);
+    cur_rank = c_me; cur_cause = 0; conc_mode = 1;
+    vs_run(r, c_nthr, conc_body, NULL, sched, slen, 400);
+    conc_mode = 0; cur_rank = -1;
+    fprintf(meta, "{\"id\":\"%s\",\"mode\":\"%s\",\"sched\":\"", c_id, mode);
+    for( int i = 0; i < r->nsteps; i++ ) fputc('0' + r->who[i], meta);
+    fprintf(meta, "\",\"asked\":%d,\"deadlock\":%d,\"ret\":[", slen, r->deadlock);
+    for( int t = 0; t < c_nthr; t++ ) {
+        fprintf(meta, "%s[", t ? "," : "");
+        for( int i = 0; i < c_nret[t]; i++ ) fprintf(meta, "%s%d", i ? "," : "", c_ret[t][i]);
+        fputc(']', meta);
+    }
+    fprintf(meta, "],\"sent\":[");
+    for( k = first_msg; k < nmsgs; k++ ) fprintf(meta, "%s[%d,%d]", k > first_msg ? "," : "", msgs[k].tid, msgs[k].dst);
+    fprintf(meta, "],\"cbs\":%d,\"state\":%d,\"nbpa\":%d,\"nbt\":%d,\"root\":%d}\n", cbcount[c_me],
+            (int)vtp[c_me].tdm.module->taskpool_state(&vtp[c_me]), (int)vtp[c_me].nb_pending_actions,
+            PARSEC_UNDETERMINED_NB_TASKS == vtp[c_me].nb_tasks ? -1 : (int)vtp[c_me].nb_tasks,
+            (int)*(int32_t*)vtp[c_me].tdm.monitor);
+    if( r->deadlock ) {             /* parked threads cannot be joined: report and leave */
+        fprintf(out, "{\"e\":\"Timeout\"}\n");
+        fflush(out); fflush(meta); _exit(0);
+    }
+    /* the rest of the world: everything in flight is delivered (FIFO), relays included */
+    for( guard = 0; (k = first_live()) >= 0 && guard < 8 * c_n + 32; guard++ ) {
+        fprintf(out, "{\"e\":\"deliver\",\"src\":%d,\"dst\":%d}\n", msgs[k].src, msgs[k].dst);
+        do_deliver(k, ++ndeliv);
+    }
+    log_end();
+    teardown();
+    return 0;
+}
+
+static void run_conc(FILE *in)
+{
+    char *line = NULL; size_t cap = 0;
+    static vs_run_t r;
+    vs_install();
+    while( getline(&line, &cap, in) > 0 ) {
+        char *save = NULL, *tok = strtok_r(line, " \t\n", &save);
+        if( !tok || tok[0] == '#' ) continue;
+        if( !strcmp(tok, "S") ) {
+            char *f[5];
+            for( int i = 0; i < 5; i++ ) if( NULL == (f[i] = strtok_r(NULL, " \t\n", &save)) ) exit(3);
+            snprintf(c_id, sizeof(c_id), "%s", f[0]);
+            c_n = atoi(f[1]); c_me = atoi(f[2]); c_root = atoi(f[3]); c_pre = atoi(f[4]); c_nthr = 0;
+            if( c_n < 1 || c_me < 0 || c_me >= c_n || c_root < 0 || c_root >= c_n ) exit(3);
+        } else if( !strcmp(tok, "T") ) {
+            int t = c_nthr++;
+            if( t >= VS_MAXT ) exit(3);
+            c_nops[t] = 0;
+            while( (tok = strtok_r(NULL, " \t\n", &save)) ) {
+                cop_t *o = &c_ops[t][c_nops[t]++];
+                if( c_nops[t] > C_MAXOPS ) exit(3);
+                o->v = 0;
+                if( !strcmp(tok, "trig") ) o->kind = C_TRIG;
+                else if( !strcmp(tok, "msg") ) o->kind = C_MSG;
+                else if( !strcmp(tok, "tsk") ) o->kind = C_TSK;
+                else if( !strcmp(tok, "chk") ) o->kind = C_CHK;
+                else if( !strncmp(tok, "add:", 4) ) { o->kind = C_ADD; o->v = atoi(tok + 4); }
+                else exit(3);
+            }
+        } else if( !strcmp(tok, "R") ) {
+            unsigned char sched[VS_MAXSTEPS]; int n = 0;
+            tok = strtok_r(NULL, " \t\n", &save);
+            for( char *p = tok; p && *p && n < VS_MAXSTEPS; p++ ) sched[n++] = (unsigned char)(*p - '0');
+            conc_once("R", sched, n, &r);
+        } else if( !strcmp(tok, "X") ) {
+            tok = strtok_r(NULL, " \t\n", &save);
+            long cnt = vs_explore(conc_once, "X", tok ? atol(tok) : 0);
+            fprintf(meta, "{\"id\":\"%s\",\"explored\":%ld,\"exhaustive\":%s}\n", c_id, cnt < 0 ? -cnt : cnt, cnt < 0 ? "false" : "true");
+        } else exit(3);
+        fflush(out); fflush(meta);
+    }
+    vs_uninstall();
+}
+
 static unsigned long long rng_state;
 static unsigned rnd(void) { rng_state = rng_state * 6364136223846793005ULL + 1442695040888963407ULL; return (unsigned)(rng_state >> 33); }
 
@@ -243,7 +415,13 @@ int main(int argc, char **argv)
     if( !in || !out ) return 3;
     { parsec_taskpool_t tmp; memset(&tmp, 0, sizeof(tmp)); shared_id = parsec_taskpool_reserve_id(&tmp); }
     parsec_ce.send_am = stub_send_am;
-    eventlevel = !strcmp(argv[1], "replay");
+    eventlevel = !strcmp(argv[1], "replay") || !strcmp(argv[1], "conc");
+    if( !strcmp(argv[1], "conc") ) {
+        if( argc < 5 || NULL == (meta = fopen(argv[4], "w")) ) return 3;
+        run_conc(in);
+        fclose(meta); fclose(out);
+        _exit(0);
+    }
     while( getline(&line, &cap, in) > 0 ) {
         if( line[0] == '\n' || line[0] == '#' ) continue;
         if( eventlevel ) {
